@@ -397,17 +397,19 @@ theorem C09_config_textual_forms :
 theorem C09_sibling_entry_points (d : Defaults) (cfg : Cfg) (a : Args W) :
     createVia .authnResponse d cfg a = create d cfg a ∧
     createVia .authnRequestResponse d cfg a = create d cfg (forward .authnRequestResponse a) ∧
-    (a.farg = none → a.status = none → a.releasePolicy = none → forward .authnRequestResponse a = a) ∧
-    (a.farg = none → a.status = none → a.releasePolicy = none → a.sessionNooa = none → forward .ecp a = a) ∧
+    (a.farg = none → a.status = none → a.releasePolicy = none → a.pefim = false → a.bestEffort = none →
+        forward .authnRequestResponse a = a) ∧
+    (a.farg = none → a.status = none → a.releasePolicy = none → a.pefim = false → a.bestEffort = none →
+        a.sessionNooa = none → forward .ecp a = a) ∧
     (∀ r, createVia .ecp d cfg a = .ok r → create d cfg (forward .ecp a) = .ok r ∧ isSigned r = false) := by
   refine ⟨?_, ?_, ?_, ?_, ?_⟩
   · unfold createVia forward
     cases create d cfg a <;> simp
   · unfold createVia
     cases create d cfg (forward .authnRequestResponse a) <;> simp
-  · intro h1 h2 h3
+  · intro h1 h2 h3 h4 h5
     cases a; simp_all [forward]
-  · intro h1 h2 h3 h4
+  · intro h1 h2 h3 h4 h5 h6
     cases a; simp_all [forward]
   · intro r h
     unfold createVia at h
@@ -529,6 +531,345 @@ theorem C09_e2e_meets_spec {L : Type} [BEq L] [LawfulBEq L] (d : Defaults) (cfg 
     simp
   · simp [hpre]
 
+/-! ### the PEFIM profile, the error Response, `issue` (round 5) -/
+
+/-- Without `pefim` and with a usable identifier store `issue` IS `create`: every statement above carries over. -/
+theorem C09_issue_plain (empty : W) (d : Defaults) (cfg : Cfg) (a : Args W) (hp : a.pefim = false)
+    (hs : storeUsable a = true) : issue empty d cfg a = create d cfg a := by
+  unfold storeUsable at hs
+  unfold issue
+  cases hf : a.storeFails <;> cases hn : a.nameId <;> simp_all
+
+/-- The identifier store cannot be read and the caller hands no identifier in: whatever else is asked for
+    (PEFIM or not), the outcome is the error Response. -/
+theorem C09_issue_store_unreadable (empty : W) (d : Defaults) (cfg : Cfg) (a : Args W) (hs : storeUsable a = false) :
+    issue empty d cfg a = errorResponse d cfg a := by
+  unfold storeUsable at hs
+  unfold issue
+  cases hf : a.storeFails <;> cases hn : a.nameId <;> simp_all
+
+/-- The error Response names the provider as issuer, answers the request at the clock's instant, carries NO
+    assertion and the status Responder (not Success), and is signed iff argument-else-configuration says so,
+    with allow-listed algorithms. -/
+theorem C09_error_response {d : Defaults} {cfg : Cfg} {a : Args W} {r : Issued W} (h : errorResponse d cfg a = .ok r) :
+    r.issuer = some cfg.entityId ∧ r.inResponseTo = some a.inResponseTo ∧ r.issueInstant = a.now ∧
+    r.assertions = [] ∧ r.statusTop = statusResponder ∧ r.statusTop ≠ successUri ∧
+    r.sig = (if demanded a.signResponse cfg.signResponse then some (sigInfo d cfg a) else none) ∧
+    (∀ i, r.sig = some i → i.sigAlg ∈ d.sigAllowed ∧ i.digestAlg ∈ d.digestAllowed) := by
+  have hdem : a.signResponse.getD (cfg.signResponse.getD false) = demanded a.signResponse cfg.signResponse := by
+    cases a.signResponse <;> cases cfg.signResponse <;> rfl
+  unfold errorResponse at h
+  simp only [hdem] at h
+  cases hs : demanded a.signResponse cfg.signResponse with
+  | false =>
+    simp only [hs] at h
+    cases h
+    simp [statusResponder, successUri]
+  | true =>
+    simp only [hs, if_true] at h
+    split at h
+    · cases h
+    next h1 =>
+      split at h
+      · cases h
+      next h2 =>
+        cases h
+        refine ⟨rfl, rfl, rfl, rfl, rfl, by simp [statusResponder, successUri], rfl, ?_⟩
+        intro i hi
+        simp only [if_true, Option.some.injEq] at hi
+        subst hi
+        exact ⟨by simpa using h1, by simpa using h2⟩
+
+/-- A receiving SP — whatever its options, clock, outstanding requests and trust — never takes identity from
+    an error Response. -/
+theorem C09_error_response_refused {d : Defaults} {cfg : Cfg} {a : Args W} {r : Issued W}
+    (h : errorResponse d cfg a = .ok r) (spCfg : Sp.Cfg) (env : Sp.Env) (trusts : Bool) :
+    (Sp.process spCfg env (toSp trusts r)).isIdentity = false := by
+  obtain ⟨_, _, _, hnone, hst, _⟩ := C09_error_response h
+  have henv : Sp.verifyEnvelope spCfg env (toSp trusts r) = .ok false ∨
+      ∃ e, Sp.verifyEnvelope spCfg env (toSp trusts r) = .error e := by
+    unfold Sp.verifyEnvelope
+    have hv : ((toSp trusts r).version != "2.0") = false := by simp [toSp]
+    have hs : ((toSp trusts r).statusTop != "urn:oasis:names:tc:SAML:2.0:status:Success") = true := by
+      simp [toSp, hst, statusResponder]
+    simp only [hv, hs, Bool.false_eq_true, if_false, if_true]
+    split
+    · exact Or.inl rfl
+    · split
+      · exact Or.inl rfl
+      · exact Or.inr ⟨_, rfl⟩
+  have hver : ∀ req st, Sp.verify spCfg env req st (toSp trusts r) = .ok none ∨
+      ∃ e, Sp.verify spCfg env req st (toSp trusts r) = .error e := by
+    intro req st
+    unfold Sp.verify
+    rcases henv with h1 | ⟨e, h1⟩
+    · rw [h1]; exact Or.inl rfl
+    · rw [h1]; exact Or.inr ⟨_, rfl⟩
+  have hp2 : ∀ st, (∃ b, Sp.pass2 spCfg env st (toSp trusts r) = .ok (none, b)) ∨
+      ∃ e, Sp.pass2 spCfg env st (toSp trusts r) = .error e := by
+    intro st
+    unfold Sp.pass2
+    rcases hver true st with h1 | ⟨e, h1⟩
+    · rw [h1]; exact Or.inl ⟨true, rfl⟩
+    · rw [h1]
+      simp only []
+      split
+      · split
+        · exact Or.inr ⟨_, rfl⟩
+        · rcases hver false st with h2 | ⟨e', h2⟩
+          · rw [h2]; exact Or.inl ⟨false, rfl⟩
+          · rw [h2]; exact Or.inr ⟨_, rfl⟩
+      · exact Or.inr ⟨_, rfl⟩
+  unfold Sp.process
+  split
+  · rfl
+  · split
+    · rfl
+    next cf rs _ =>
+      rcases hp2 { cameFrom := cf } with ⟨b, h2⟩ | ⟨e, h2⟩
+      · simp only [h2]
+        split <;> rfl
+      · simp only [h2]; rfl
+
+/-- What `issue` returns under `pefim`: `create`'s Response reshaped, unless the requester requires an
+    attribute the identity lacks and `best_effort` is off (then nothing usable is returned). -/
+theorem C09_pefim_shape {empty : W} {d : Defaults} {cfg : Cfg} {a : Args W} {r : Issued W}
+    (h : issue empty d cfg a = .ok r) (hp : a.pefim = true) (hs : storeUsable a = true) :
+    ∃ r0, create d cfg a = .ok r0 ∧ r = pefimShape empty d cfg a r0 ∧
+      (cfg.unmet.contains a.spEntityId = false ∨ bestEffortOf a = true) := by
+  have hstore : (a.storeFails && a.nameId.isNone) = false := by
+    unfold storeUsable at hs
+    cases hf : a.storeFails <;> cases hn : a.nameId <;> simp_all
+  unfold issue at h
+  simp only [hstore, hp, if_true, Bool.false_eq_true, if_false] at h
+  cases hc : create d cfg a with
+  | error e => simp [hc] at h
+  | ok r0 =>
+    simp only [hc] at h
+    split at h
+    · cases h
+    next hcond =>
+      cases h
+      refine ⟨r0, rfl, rfl, ?_⟩
+      cases hu : cfg.unmet.contains a.spEntityId
+      · exact Or.inl rfl
+      · right
+        cases hb : bestEffortOf a
+        · exact absurd (by rw [hu, hb]; rfl) hcond
+        · rfl
+
+/-- FIRST SENTENCE under PEFIM.  The Response and its single assertion are `create`'s — issuer, audience, the
+    confirmation with Recipient / InResponseTo / expiry, Conditions, signatures — except that the assertion
+    carries no attributes but exactly one advice assertion, which is issued by the provider, restricted to the
+    requester, valid for the policy lifetime, confirmed with that expiry (Recipient / InResponseTo absent unless
+    preset), unsigned on its own, carries the released attributes, and is encrypted iff the requester publishes
+    an encryption certificate. -/
+theorem C09_pefim_scoping {empty : W} {d : Defaults} {cfg : Cfg} {a : Args W} {r : Issued W}
+    (h : issue empty d cfg a = .ok r) (hp : a.pefim = true) (hs : storeUsable a = true) :
+    r.issuer = some cfg.entityId ∧ r.issueInstant = a.now ∧ r.inResponseTo = some a.inResponseTo ∧
+    r.sig = (if resolve a.signResponse cfg.signResponse d.signResponse then some (sigInfo d cfg a) else none) ∧
+    ∃ x adv, r.assertions = [x] ∧ x.attrs = empty ∧ x.advice = [adv] ∧
+      x.issuer = some cfg.entityId ∧ x.audiences = [[a.spEntityId]] ∧
+      (∃ c, x.confs = [c] ∧ c.nooa = some (a.now + lifetimeOf d cfg a) ∧
+        (a.farg.bind (·.method) = none → c.method = .bearer) ∧
+        (a.farg.bind (·.recipient) = none → c.recipient = some a.destination) ∧
+        (a.farg.bind (·.irt) = none → c.irt = some a.inResponseTo)) ∧
+      x.condNb = some a.now ∧ x.condNooa = some (a.now + lifetimeOf d cfg a) ∧
+      x.sig = (if resolve a.signAssertion cfg.signAssertion d.signAssertion then some (sigInfo d cfg a) else none) ∧
+      adv.issuer = some cfg.entityId ∧ adv.audiences = [[a.spEntityId]] ∧
+      adv.condNb = some a.now ∧ adv.condNooa = some (a.now + lifetimeOf d cfg a) ∧
+      adv.nameId = none ∧ adv.authn = [] ∧ adv.sig = none ∧ adv.attrs = a.attrs ∧
+      adv.encrypted = cfg.encCerts.contains a.spEntityId ∧
+      (∃ c, adv.confs = [c] ∧ c.nooa = some (a.now + lifetimeOf d cfg a) ∧
+        (a.farg.bind (·.method) = none → c.method = .bearer) ∧
+        (a.farg.bind (·.recipient) = none → c.recipient = none) ∧
+        (a.farg.bind (·.irt) = none → c.irt = none) ∧
+        (∀ v, a.farg.bind (·.recipient) = some v → c.recipient = some v) ∧
+        (∀ v, a.farg.bind (·.irt) = some v → c.irt = some v)) := by
+  obtain ⟨r0, hc, hr, _⟩ := C09_pefim_shape h hp hs
+  obtain ⟨hi, hinst, hirt, hsig, x, hx, hxi, haud, hconf, hnb, hnooa, hxsig, _⟩ := C09_scoping hc
+  subst hr
+  refine ⟨hi, hinst, hirt, hsig, { x with attrs := empty, advice := [adviceOf d cfg a] }, adviceOf d cfg a,
+    by simp [pefimShape, hx], rfl, rfl, hxi, haud, hconf, hnb, hnooa, hxsig, rfl, rfl, rfl,
+    by simp [adviceOf, lifetimeFor_eq], rfl, rfl, rfl, rfl, rfl, ?_⟩
+  refine ⟨_, rfl, ?_⟩
+  simp only [adviceConf, lifetimeFor_eq]
+  cases hf : a.farg with
+  | none => simp
+  | some f => cases hm : f.method <;> cases hr : f.recipient <;> cases hi : f.irt <;> simp [hm, hr, hi]
+
+/-- When `issue` creates nothing: `create` refuses (see `C09_refusal`), or the PEFIM advice cannot be built, or
+    the error Response itself cannot be signed with the algorithms named. -/
+theorem C09_issue_refusal {empty : W} {d : Defaults} {cfg : Cfg} {a : Args W} {e : Refusal}
+    (h : issue empty d cfg a = .error e) :
+    create d cfg a = .error e ∨
+    (e = .adviceNotElement ∧ a.pefim = true ∧ cfg.unmet.contains a.spEntityId = true ∧ bestEffortOf a = false) ∨
+    (storeUsable a = false ∧ errorResponse d cfg a = .error e) := by
+  cases hs : storeUsable a with
+  | false => right; right; exact ⟨rfl, by rw [← C09_issue_store_unreadable empty d cfg a hs]; exact h⟩
+  | true =>
+    cases hp : a.pefim with
+    | false => left; rw [← C09_issue_plain empty d cfg a hp hs]; exact h
+    | true =>
+      have hstore : (a.storeFails && a.nameId.isNone) = false := by
+        unfold storeUsable at hs
+        cases hf : a.storeFails <;> cases hn : a.nameId <;> simp_all
+      unfold issue at h
+      simp only [hstore, hp, if_true, Bool.false_eq_true, if_false] at h
+      cases hc : create d cfg a with
+      | error e' => left; simp [hc] at h; rw [h]
+      | ok r0 =>
+        right; left
+        simp only [hc] at h
+        split at h
+        next hcond =>
+          cases h
+          simp only [Bool.and_eq_true, Bool.not_eq_true'] at hcond
+          exact ⟨rfl, rfl, hcond.1, hcond.2⟩
+        · cases h
+
+/-- `specCoreX (issue …) = true` for all inputs: error Response, PEFIM and plain. -/
+theorem C09_issue_meets_spec (empty : W) (d : Defaults) (cfg : Cfg) (a : Args W)
+    (hd : d.signResponse = false ∧ d.signAssertion = false) : specCoreX d cfg a (issue empty d cfg a) = true := by
+  have hcore := C09_core_meets_spec d cfg a hd
+  cases hs : storeUsable a with
+  | false =>
+    rw [C09_issue_store_unreadable empty d cfg a hs]
+    cases he : errorResponse d cfg a with
+    | error e => rfl
+    | ok r =>
+      obtain ⟨h1, h2, h3, h4, _, h6, h7, _⟩ := C09_error_response he
+      simp only [specCoreX, h4, List.isEmpty_nil, if_true, errorResponseOk, h1, h2, h3, signaturesOk, h7, List.all_nil,
+        Bool.and_true, beq_self_eq_true, Bool.true_and]
+      have hne : (r.statusTop != successUri) = true := by simpa using h6
+      rw [hne]
+      cases hdem : demanded a.signResponse cfg.signResponse
+      · simp [sigAsDemanded]
+      · simp [sigAsDemanded, sigInfo, demandedAlg_all]
+  | true =>
+    cases hp : a.pefim with
+    | false =>
+      rw [C09_issue_plain empty d cfg a hp hs]
+      cases hc : create d cfg a with
+      | error e => rfl
+      | ok r =>
+        obtain ⟨nid, _, hr, _⟩ := create_ok_inv hc
+        rw [hc] at hcore
+        subst hr
+        have hadv : (responseOf d cfg a nid).assertions.all (fun x => x.advice.all (adviceOk d cfg a)) = true := by
+          simp [responseOf, assertionOf]
+        have hne : (responseOf d cfg a nid).assertions.isEmpty = false := rfl
+        unfold specCoreX
+        simp only [hne, Bool.false_eq_true, if_false, hcore, hadv, Bool.and_self]
+    | true =>
+      cases hi : issue empty d cfg a with
+      | error e => rfl
+      | ok r =>
+        obtain ⟨r0, hc, hr, _⟩ := C09_pefim_shape hi hp hs
+        obtain ⟨nid, _, hr0, _⟩ := create_ok_inv hc
+        rw [hc] at hcore
+        subst hr0
+        subst hr
+        have hadv : adviceOk d cfg a (adviceOf d cfg a) = true := by
+          unfold adviceOk adviceConfOk preset adviceOf adviceConf
+          simp only [lifetimeFor_eq]
+          cases hf : a.farg with
+          | none => simp
+          | some f => cases hr : f.recipient <;> cases hi : f.irt <;> simp [hr, hi]
+        simp only [specCore, responseOf, assertionOf, List.all_cons, List.all_nil, List.length_singleton] at hcore
+        simp only [specCoreX, specCore, pefimShape, responseOf, assertionOf, List.map_cons, List.map_nil, List.isEmpty_cons,
+          Bool.false_eq_true, if_false, List.all_cons, List.all_nil, List.length_singleton, hadv, Bool.and_true]
+        simpa [assertionCoreOk, signaturesOk] using hcore
+
+/-- … and for every public entry point on the arguments it forwards. -/
+theorem C09_issue_entry_points_meet_spec (empty : W) (e : Entry) (d : Defaults) (cfg : Cfg) (a : Args W)
+    (hd : d.signResponse = false ∧ d.signAssertion = false) :
+    specCoreX d cfg (forward e a) (issueVia empty e d cfg a) = true := by
+  have h := C09_issue_meets_spec empty d cfg (forward e a) hd
+  unfold issueVia
+  cases hc : issue empty d cfg (forward e a) with
+  | error x => rfl
+  | ok r =>
+    rw [hc] at h
+    simp only []
+    split
+    · rfl
+    · exact h
+
+/-- SECOND SENTENCE under PEFIM: under the hypotheses of `C09_end_to_end` the SP accepts the Response and the
+    application gets exactly the released attributes — from the advice assertion (opened with the SP's key when
+    it is encrypted; the SP holds that key by assumption). -/
+theorem C09_pefim_end_to_end {L : Type} (empty : W) (d : Defaults) (cfg : Cfg) (a : Args W) (s : SpSide) (r : Issued W)
+    (conv : Conv L W) (released : L)
+    (hd : d.signResponse = false ∧ d.signAssertion = false) (hst : d.statusSuccess = successUri)
+    (hissue : issue empty d cfg a = .ok r) (hp : a.pefim = true) (hs : storeUsable a = true)
+    (hpre : e2ePre d cfg a s = true)
+    (hround : conv.toLocal a.attrs = released) :
+    ∃ o nid, endToEndAdv conv s.cfg s.env s.trusts r = (.identity o, some released) ∧
+      (∃ x rest, r.assertions = x :: rest ∧ x.nameId = some nid) ∧
+      o.nameId = some nid.text ∧
+      o.issuer = Sp.pyStrip cfg.entityId ∧
+      o.cameFrom = s.env.outstanding.lookup a.inResponseTo ∧
+      o.notOnOrAfter = expectedExpiry d cfg a := by
+  obtain ⟨r0, hc, hr, _⟩ := C09_pefim_shape hissue hp hs
+  obtain ⟨o, nid, he, ⟨x, rest, hx, hxn⟩, h1, h2, h3, h4, _⟩ :=
+    C09_end_to_end d cfg a s r0 conv released hd hst hc hpre hround
+  subst hr
+  refine ⟨o, nid, ?_, ⟨{ x with attrs := empty, advice := [adviceOf d cfg a] }, _, by simp [pefimShape, hx]; rfl, hxn⟩,
+    h1, h2, h3, h4⟩
+  unfold endToEnd at he
+  unfold endToEndAdv
+  rw [toSp_pefimShape]
+  have hproc : Sp.process s.cfg s.env (toSp s.trusts r0) = .identity o := by
+    have := congrArg Prod.fst he
+    simpa using this
+  simp only [hproc]
+  simp [recoveredAdv, pefimShape, hx, adviceOf, hround]
+
+/-- `specE2EX (issue …) = true` for all inputs: the checker the driver evaluates on the real SP's outcome holds
+    of the composed model — error Response (never identity), PEFIM and plain. -/
+theorem C09_issue_e2e_meets_spec {L : Type} [BEq L] [LawfulBEq L] (empty : W) (d : Defaults) (cfg : Cfg) (a : Args W)
+    (s : SpSide) (conv : Conv L W) (hd : d.signResponse = false ∧ d.signAssertion = false)
+    (hst : d.statusSuccess = successUri) (r : Issued W) (hissue : issue empty d cfg a = .ok r) :
+    specE2EX d cfg a s (conv.toLocal a.attrs) (.ok r) (some (endToEndAdv conv s.cfg s.env s.trusts r)) = true := by
+  unfold specE2EX
+  cases hs : storeUsable a with
+  | false =>
+    rw [C09_issue_store_unreadable empty d cfg a hs] at hissue
+    have hno := C09_error_response_refused hissue s.cfg s.env s.trusts
+    obtain ⟨_, _, _, hnone, _⟩ := C09_error_response hissue
+    simp only [hnone, List.isEmpty_nil, Bool.not_true, Bool.false_or, Bool.not_false, Bool.true_or, Bool.and_true]
+    unfold endToEndAdv
+    cases hproc : Sp.process s.cfg s.env (toSp s.trusts r) with
+    | identity o => rw [hproc] at hno; cases hno
+    | noIdentity => rfl
+    | rejected e => rfl
+  | true =>
+    cases hp : a.pefim with
+    | false =>
+      rw [C09_issue_plain empty d cfg a hp hs] at hissue
+      obtain ⟨nid, _, hr, _⟩ := create_ok_inv hissue
+      have hsame : endToEndAdv conv s.cfg s.env s.trusts r = endToEnd conv s.cfg s.env s.trusts r := by
+        subst hr
+        simp [endToEndAdv, endToEnd, recoveredAdv, recovered, responseOf, assertionOf]
+      rw [hsame]
+      have := C09_e2e_meets_spec d cfg a s conv hd hst r hissue
+      have hne : r.assertions.isEmpty = false := by subst hr; rfl
+      simp [hne, this]
+    | true =>
+      obtain ⟨r0, hc, hr, _⟩ := C09_pefim_shape hissue hp hs
+      have hne : r.assertions.isEmpty = false := by
+        obtain ⟨nid, _, hr0, _⟩ := create_ok_inv hc
+        subst hr0; subst hr; rfl
+      simp only [hne, Bool.not_false, Bool.true_or, Bool.true_and, Bool.not_true, Bool.false_or]
+      unfold specE2E
+      by_cases hpre : e2ePre d cfg a s = true
+      · obtain ⟨o, nid, he, ⟨x, rest, hx, hxn⟩, hname, hiss, hcf, hexp⟩ :=
+          C09_pefim_end_to_end empty d cfg a s r conv (conv.toLocal a.attrs) hd hst hissue hp hs hpre rfl
+        simp only [hpre, he, hx, hxn, hname, hiss, hcf, hexp]
+        simp
+      · simp [hpre]
+
 /-! ### non-vacuity -/
 
 private def exD : Defaults :=
@@ -590,5 +931,40 @@ example : formDefined (.str "False") = false ∧ loadBool (.str "False") = some 
 example : noStoredReuse exArgs = true := by decide
 example : noStoredReuse { exArgs with stored := [{ format := some "transient", spNameQualifier := some "sp", text := "T" }] } = false := by
   decide
+
+-- PEFIM: the assertion carries no attributes; the advice assertion carries them, scoped to the requester, encrypted
+-- iff the requester publishes an encryption certificate; the SP model accepts and the attributes come back
+example : (match issue [] exD { exCfg with encCerts := ["sp"] } { exArgs with pefim := true } with
+           | .ok r => r.assertions.map (fun x => (x.attrs, x.advice.map fun v => (v.encrypted, v.audiences, v.condNooa, v.attrs,
+                        v.confs.map fun c => (c.recipient, c.irt, c.nooa)))) ==
+                        [([], [(true, [["sp"]], some 1300, ["givenName=A"], [(none, none, some 1300)])])]
+           | .error _ => false) = true := by decide
+example : (match issue [] exD exCfg { exArgs with pefim := true } with
+           | .ok r => (endToEndAdv ({ fromLocal := id, toLocal := id } : Conv (List String) (List String))
+                        exSide.cfg exSide.env true r).2 == some ["givenName=A"] &&
+                      r.assertions.all (fun x => x.advice.all (fun v => !v.encrypted))
+           | .error _ => false) = true := by decide
+example : storeUsable { exArgs with pefim := true } = true ∧ e2ePre exD exCfg { exArgs with pefim := true } exSide = true := by decide
+-- PEFIM for a requester that requires an attribute nobody has: nothing usable unless best_effort
+example : (match issue [] exD { exCfg with unmet := ["sp"] } { exArgs with pefim := true } with
+           | .error e => some e | .ok _ => none) = some .adviceNotElement := by decide
+example : (match issue [] exD { exCfg with unmet := ["sp"] } { exArgs with pefim := true, bestEffort := some true } with
+           | .ok r => r.assertions.length == 1 | .error _ => false) = true := by decide
+-- without pefim the same requester gets the plain Response (setup_assertion runs with best_effort=True)
+example : (match issue [] exD { exCfg with unmet := ["sp"] } exArgs with
+           | .ok r => r.assertions.map (fun x => (x.attrs, x.advice.length)) == [(["givenName=A"], 0)]
+           | .error _ => false) = true := by decide
+-- the identifier store cannot be read: an error Response (signed: the argument says so), which the SP refuses by status
+example : storeUsable { exArgs with storeFails := true } = false := by decide
+example : (match issue [] exD exCfg { exArgs with storeFails := true } with
+           | .ok r => r.assertions.isEmpty && r.sig.isSome && r.statusTop == statusResponder &&
+                      Sp.process exSide.cfg exSide.env (toSp true r) == .rejected (.status (some statusAuthnFailed))
+           | .error _ => false) = true := by decide
+-- … but not when the caller hands the identifier in
+example : (match issue [] exD exCfg { exArgs with storeFails := true, nameId := some { text := "given" } } with
+           | .ok r => r.assertions.length == 1 | .error _ => false) = true := by decide
+-- the ECP entry point cannot wrap an error Response
+example : (match issueVia [] .ecp exD { exCfg with signAssertion := none } { exArgs with signResponse := none, storeFails := true } with
+           | .error e => some e | .ok _ => none) = some .ecpSignedNotElement := by decide
 
 end C09
